@@ -41,6 +41,6 @@ void prop_enumerate(void) {
   if (!strcmp(mode, "tiny")) rk_enumerate(1 << F_TINY, vx_tier ? 16 : 13, 0, on_spec, NULL);
   else if (!strcmp(mode, "lift")) rk_enumerate(1 << F_LIFT, 0, vx_tier ? 12 : 7, on_spec, NULL);
   else if (!strcmp(mode, "struct")) rk_enumerate((1 << F_ECH) | (1 << F_RK) | (1 << F_BND), 0, 0, on_spec, NULL);
-  else if (!strcmp(mode, "rec")) rk_enumerate(1 << F_REC, 0, 0, on_spec, NULL);
+  else if (!strcmp(mode, "rec")) rk_enumerate((1 << F_REC) | (1 << F_RECW), 0, 0, on_spec, NULL);
 }
 int main(int argc, char **argv) { return vx_main(argc, argv); }
